@@ -26,7 +26,7 @@ pub fn tok_to_text(t: &Token) -> String {
 }
 
 fn leak(s: &str) -> &'static str {
-    Box::leak(s.to_string().into_boxed_str())
+    no_lib(|| Box::leak(s.to_string().into_boxed_str()))
 }
 
 pub fn text_to_tok(s: &str) -> Token {
@@ -70,6 +70,34 @@ pub fn mutate(toks: &mut Vec<String>, rng: &mut Rng) -> String {
     let numeric: Vec<usize> = (0..toks.len()).filter(|i| toks[*i].starts_with('u') || toks[*i].starts_with('b')).collect();
     let heads: Vec<usize> = (0..toks.len()).filter(|i| toks[*i].starts_with('T') || toks[*i].starts_with('Q')).collect();
     let fields: Vec<usize> = (0..toks.len()).filter(|i| toks[*i].starts_with('f')).collect();
+    let idents: Vec<usize> = (0..toks.len().saturating_sub(3)).filter(|i| toks[*i] == "findex" && toks[*i + 2] == "fgeneration").collect();
+    if idents.len() >= 2 && rng.below(100) < 12 {
+        // two identifiers (stored or on the free list) collide on the index, generations differ or not
+        let a = idents[rng.below(idents.len() as u64) as usize];
+        let b = idents[rng.below(idents.len() as u64) as usize];
+        if a != b {
+            let idx = toks[a + 1].clone();
+            let gen: u64 = toks[a + 3][1..].parse().unwrap_or(0);
+            toks[b + 1] = idx;
+            toks[b + 3] = format!("u{}", if rng.below(3) == 0 { gen } else { gen + 1 + rng.below(2) });
+            return format!("ident-collide@{}~{}", a, b);
+        }
+    }
+    if !idents.is_empty() && rng.below(100) < 10 {
+        // a stale free-list entry: a stored (or free) identifier is also listed as free, with the
+        // same or another generation
+        if let Some(fpos) = (0..toks.len().saturating_sub(1)).find(|i| toks[*i] == "ffree" && toks[*i + 1].starts_with('Q')) {
+            let a = idents[rng.below(idents.len() as u64) as usize];
+            let idx = toks[a + 1].clone();
+            let gen: u64 = toks[a + 3][1..].parse().unwrap_or(0);
+            let g2 = match rng.below(3) { 0 => gen, 1 => gen + 1, _ => gen.saturating_sub(1) };
+            let entry = vec!["SIdentifier:2".to_string(), "findex".to_string(), idx, "fgeneration".to_string(), format!("u{}", g2), "s".to_string()];
+            for (k, t) in entry.into_iter().enumerate() {
+                toks.insert(fpos + 2 + k, t);
+            }
+            return format!("stale-free@{}", a);
+        }
+    }
     match rng.below(100) {
         0..=39 if !numeric.is_empty() => {
             // alter a number: lengths, identifier bytes, entity indices/generations, free list, values
@@ -189,10 +217,12 @@ pub fn exec_de<F: Family>(it: &mut Interp<F>, w: usize, args: &[String]) -> Opti
     }
     let rows = args[0] == "rows";
     let e: u64 = args[1].parse().ok()?;
+    let before = crate::alloc_audit::snapshot();
     let toks: Vec<Token> = if args[3] == "-" { vec![] } else { args[3].split(',').map(text_to_tok).collect() };
     EPOCH.store(e, Ordering::SeqCst);
     let zst = with_ledger(|l| l.zst.clone());
-    match F::de_tokens(Tokens(toks), rows) {
+    let res = F::de_tokens(Tokens(toks), rows).map_err(|_| ());
+    match res {
         Ok(nw) => {
             let old = it.worlds[w].take();
             drop(old);
@@ -200,7 +230,7 @@ pub fn exec_de<F: Family>(it: &mut Interp<F>, w: usize, args: &[String]) -> Opti
             let mut eq = String::new();
             if let Ok(src) = args[2].parse::<usize>() {
                 if src < it.issued.len() && src != w && it.worlds[src].is_some() {
-                    it.issued[w] = it.issued[src].clone();
+                    no_lib(|| it.issued[w] = it.issued[src].clone());
                     // C06: the round-tripped world must compare equal to its source
                     let (a, b) = pair_mut(&mut it.worlds, src, w);
                     eq = format!(" eq={}", F::eq(a.as_ref().unwrap(), b.as_ref().unwrap()) as u8);
@@ -219,9 +249,13 @@ pub fn exec_de<F: Family>(it: &mut Interp<F>, w: usize, args: &[String]) -> Opti
                 (before - l.live.len()) as i64 + z
             });
             if leaked > 0 {
-                *it.stats.entry("de:err-leaked-values".to_string()).or_insert(0) += leaked as u64;
+                no_lib(|| *it.stats.entry("de:err-leaked-values".to_string()).or_insert(0) += leaked as u64);
             }
             take_drops();
+            // memory of values leaked by a *failed* deserialization never belonged to a world
+            let after = crate::alloc_audit::snapshot();
+            it.alloc_base.0 += after.0 - before.0;
+            it.alloc_base.1 += after.1 - before.1;
             Some("err".into())
         }
     }
